@@ -322,6 +322,10 @@ def main(argv):
     a = ap.parse_args(argv)
     if a.replay:
         res = replay_file(a.replay)
+        if res["outcome"] == "kf":
+            vi = res["violation"]
+            print("KNOWN-FINDING: property=%s %s (clause %s): %s" % (vi["prop"], vi.get("kf"), vi["clause"], vi["msg"][:400]))
+            return 0
         if res["outcome"] in ("violation", "kf"):
             vi = res["violation"]
             print("VIOLATION property=%s replay=%s" % (vi["prop"], a.replay))
